@@ -221,14 +221,53 @@ def not_analysed_units(repo=None):
     return []
 
 
-def compile_text(name, text, config="default", extra=(), mem2reg=True, flags_only=False):
-    """Compile a generated witness TU (source text) against the repo headers."""
+def compile_text(name, text, config="default", extra=(), mem2reg=True, flags_only=False, inline_except=None):
+    """Compile a generated witness TU (source text) against the repo headers.  inline_except: see compile_unit (an empty
+    collection inlines every static function, i.e. the headers' static inline helpers, into the witness functions)."""
     wd = workdir()
     path = os.path.join(wd, name)
     with open(path, "w") as f:
         f.write(text)
-    js = compile_unit(path, config, extra, None, mem2reg)
+    js = compile_unit(path, config, extra, None, mem2reg, inline_except)
     return ir.Module(js, unit="witness:" + name, config=config)
+
+
+def api_view(name, text, units, entry, config="default", extra=(), repo=None):
+    """The library as a caller sees it: a generated TU that uses an API name exactly as user code does (a function, a
+    static inline of the header or a macro - whatever the header currently makes of it) is linked with the IR of the
+    named library units, and every function DEFINED in the result other than the witness entry points `entry` is inlined
+    into them.  Rules then analyse the entry points: the behaviour behind the API name, wherever its pieces live."""
+    ensure_tool()
+    repo = repo or REPO
+    wd = workdir()
+    path = os.path.join(wd, name)
+    with open(path, "w") as f:
+        f.write(text)
+    wjs = compile_unit(path, config, extra, repo, True, None)
+    lls = [wjs[:-5] + ".m2r.ll"]
+    for u in units:
+        up = os.path.join(repo, u)
+        if not os.path.exists(up):
+            raise ir.AnalysisError("anchor vanished: %s" % u)
+        lls.append(compile_unit(up, config, extra, repo, True, None)[:-5] + ".m2r.ll")
+    stem = os.path.join(wd, name.replace(".", "_") + "_" + config + "_api")
+    r = subprocess.run(["llvm-link-14", "-S"] + lls + ["-o", stem + ".link.ll"], capture_output=True, text=True)
+    if r.returncode != 0:
+        raise ir.AnalysisError("llvm-link failed for %s: %s" % (name, r.stderr[-2000:]))
+    import re
+    text_ll = open(stem + ".link.ll").read()
+    defined = set(re.findall(r"^define [^@]*@([\w.$]+)\(", text_ll, re.M))
+    victims = defined - set(entry)
+    with open(stem + ".in.ll", "w") as f:
+        f.write(_mark_always_inline(text_ll, victims))
+    r = subprocess.run(["opt-14", "-passes=always-inline,function(mem2reg,jump-threading)", "-S", stem + ".in.ll", "-o", stem + ".inl.ll"],
+                       capture_output=True, text=True)
+    if r.returncode != 0:
+        raise ir.AnalysisError("opt (always-inline) failed on %s: %s" % (name, r.stderr[-2000:]))
+    r = subprocess.run([IR2JSON, stem + ".inl.ll", stem + ".json"], capture_output=True, text=True)
+    if r.returncode != 0:
+        raise ir.AnalysisError("ir2json failed on %s: %s" % (name, r.stderr[-2000:]))
+    return ir.Module(stem + ".json", unit="api-view:" + name + "+" + "+".join(units), config=config)
 
 
 def syntax_check(name, text, extra=()):
